@@ -242,7 +242,6 @@ Proof. intros. apply rx_exact; [assumption|]. eapply merge_forall; eassumption. 
 
 Lemma plen_is_4 : plen = 4%nat. Proof. reflexivity. Qed.
 Lemma slen_is_4 : slen = 4%nat. Proof. reflexivity. Qed.
-Lemma plen_w_is_4 : pktconn_prefix_len_w = 4. Proof. reflexivity. Qed.
 
 Theorem rx_run_chunking : forall pl z maxp ch1 ch2 D,
   rx_run pl z maxp (ch1, D) = rx_run pl z maxp (ch2, D).
